@@ -22,6 +22,10 @@ NAMES = ["a", "b", "c", "d", "e", "f_g", "h", "pop", "copy", "_inc", "__x"]
 N_STRATS = 7
 
 
+class KeyTuple(tuple):
+  """ A tuple subclass (like a namedtuple record) used as a key tuple. """
+
+
 class FalsyMixin(object):
   def __len__(self):
     return 0          # a callable container that happens to be empty
@@ -130,7 +134,7 @@ class C15(Property):
         elif op == "sett":
           m = W.span("tl", 1, 4)
           ops.append(["sett", [W.choose("k", nk) for _ in range(m)],
-                      W.choose("v", nv)])
+                      W.choose("v", nv), W.choose("subclass", 4) == 3])
         elif op == "del":
           ops.append(["del", W.choose("k", nk)])
         elif op in ("gett", "delt"):
@@ -299,6 +303,9 @@ class C15(Property):
       res.counters["op." + name] += 1
       if name == "set" or name == "sett":
         key = KEYS[op[1]] if name == "set" else tuple(KEYS[k] for k in op[1])
+        if name == "sett" and len(op) > 3 and op[3]:
+          key = KeyTuple(key)          # isinstance(key, tuple) still holds
+          probes.add("tuple-subclass-as-key-tuple")
         val = VALS[op[2]]
         try:
           d[key] = val
